@@ -1,0 +1,28 @@
+//go:build verif
+
+// Contracts for package lwk (comment-only, read by /verif/govc; never compiled
+// into the product: the build tag "verif" is not set by any build of peerswap).
+package lwk
+
+// C20: the Electrum watcher only ever moves its tip forward and hands each new
+// height to the observers once; invalid headers (nil, zero or negative heights)
+// are errors, never heights.
+//@ func parseBlockHeight
+//@ property C20
+//@ ensures @C20 valid-height: result1 == nil ==> (blockHeader != nil && result0 > 0 && int64(result0) == int64(blockHeader.Height))
+//@ ensures @C20 invalid-header-is-error: (blockHeader == nil || blockHeader.Height <= 0) ==> (result1 != nil && result0 == 0)
+//@ assigns nothing
+
+//@ func (*electrumTxWatcher).acceptBlockHeight
+//@ property C20
+//@ requires r != nil
+//@ ensures @C20 strictly-forward: result1 ==> (result2 == nil && result0 > 0 && (old(r.blockHeight) <= 0 || result0 > old(r.blockHeight)) && r.blockHeight == result0)
+//@ ensures @C20 stale-ignored: !result1 ==> r.blockHeight == old(r.blockHeight)
+//@ ensures @C20 stopped-stays-stopped: old(r.terminalErr) != nil ==> (!result1 && result2 != nil)
+//@ ensures @C20 error-reports-nothing: result2 != nil ==> !result1
+
+//@ func (*electrumTxWatcher).GetBlockHeight
+//@ property C20 C04
+//@ requires r != nil
+//@ ensures @C20,C04 height-is-tip: result1 == nil ==> (r.blockHeight > 0 && r.blockHeight <= 4294967295 && mi(result0) == mi(r.blockHeight) && r.terminalErr == nil)
+//@ ensures @C20 no-tip-is-error: (r.blockHeight <= 0 || r.terminalErr != nil || r.blockHeight > 4294967295) ==> result1 != nil
